@@ -38,7 +38,7 @@ EXPLANATION = (
     'information. The two unordered sources the statement names - os.environ iteration and directory listings (iterdir/listdir/scandir/'
     'glob/os.walk) - are typed like sets: armed in the text-producing modules; in dependency / compiler / tool detection they are '
     'information (probing depends on the layout found), except the shape that provably discards a written priority order (source '
-    'filtered by membership in a list/tuple and collected in source order). R2 (K3): in NinjaBuildElement.write every set-typed attribute reaches the written text only through sorted(). '
+    'filtered by membership in a list/tuple and collected in source order). Hash order is armed as well in the modules that compute what the text producers write verbatim (dependency flattening, compile / link arguments, compiler-check inputs, wrap providers: dependencies/, compilers/, linkers/, interpreter/, wrap/, arglist, programs, utils/core, environment) for functions whose text shows a set construction or annotation; the uses listed in ARG_INFO (cache key, candidate lists the caller sorts, message text, devenv paths, method sets only tested for membership) are information. R2 (K3): in NinjaBuildElement.write every set-typed attribute reaches the written text only through sorted(). '
     'R3 (K1/K2): the five sibling writers of configure-time files open a temporary path, every normal path ends in '
     'replace_if_different(final, temporary) and that call is only reachable after the writer was closed (with-exit / close()); the same holds for module methods that write a '
     'file and return it as File.from_built_file (a source / input of build edges); copy mode of configure_file uses a copy that keeps the '
@@ -48,7 +48,7 @@ EXPLANATION = (
     'through that method, not as str() text. '
     'R5 (K6): every un-keyed sorted()/sort()/min()/max() in scope whose elements are instances of a repository class relies on a __lt__ '
     'whose decision table is a strict total order consistent with __eq__. R5 covers every repository class that defines __lt__ (total_ordering classes without __eq__: the constructor-bound '
-    'fields stand for the identity). Does NOT decide byte equality across runs (run-time relation), whether serialised state is dumped '
+    'fields stand for the identity). R6: a name table filled while iterating a directory listing (directly or through a dict filled in listing order; self-method calls followed with constant flag binding) treats a name that is already registered as an error on every decision path the caller can reach - a tolerated collision (first or last registration wins) makes the provider depend on readdir order (wrap provided_deps / provided_programs). Unguarded keyed stores in listing order (last wins; whether keys can collide is value level) are information. Does NOT decide byte equality across runs (run-time relation), whether serialised state is dumped '
     'before later configure steps mutate objects it aliases (e.g. dump_coredata vs. postconf hooks: run-time aliasing), whether per-machine cache keys carry the machine (DependencyCache) or a result cache key covers every input of the '
     'cached computation (run_check_cache), lists shared by aliasing between dict entries (add_*_arguments), leftovers of an earlier '
     'configure in the build directory that change what the next one emits (e.g. a dangling alias symlink kept because its removal is guarded by '
@@ -62,7 +62,7 @@ ASSUMPTIONS = ['annotations T.Set/FrozenSet/AbstractSet/MutableSet and set()/fro
                'unresolved callees are never assumed order-insensitive: an ordered result handed to one counts as escaping']
 TECHNIQUE = ('annotation-driven set typing + consumer / effect classification with callee summaries (K10); def-use origin flow with a '
              'sanitiser cut; CFG must-pass; path enumeration with paths pruned by the reaching *constant* definition of the tested flag; '
-             'decision table of __lt__ (sa.tables) with enumeration of the worlds of its atoms and a swapped-pair consistency check')
+             'decision paths between membership test and keyed store for registries filled in listing order (sa.paths); decision table of __lt__ (sa.tables) with enumeration of the worlds of its atoms and a swapped-pair consistency check')
 
 _CACHE: T.Dict[int, T.Any] = {}
 
@@ -89,6 +89,12 @@ class _NoGC:
 def _scanner(ctx: RuleCtx) -> SiteScanner:
     key = id(ctx.repo)
     if key not in _CACHE or _CACHE[key][0] is not ctx.repo:
+        if not getattr(ctx.repo, '_c06_example', False) and _CACHE:
+            # a long-lived process (selftest worker, refcheck) checks one tree after the other: let go of the previous tree's
+            # scanners and parsed modules (they were frozen by _NoGC and sit in reference cycles), otherwise memory grows per run
+            _CACHE.clear()
+            gc.unfreeze()
+            gc.collect()
         index = SCOPE + INDEX_EXTRA if not getattr(ctx.repo, '_c06_example', False) else sorted(ctx.repo.overlay)
         res = Resolver(ctx.repo, index)
         _CACHE[key] = (ctx.repo, SiteScanner(ctx.repo, res))
@@ -186,6 +192,61 @@ def _unordered_sweep(ctx: RuleCtx, scope: T.List[str]) -> None:
     ctx.note(f'unordered-source sweep: {nfun} functions, {nsites} uses')
 
 
+# modules that compute what the text producers write verbatim: dependency lists, compile / link / command arguments, compiler-check
+# inputs, subproject providers.  A proven set (annotation / constructor / display) whose order escapes there reaches build.ninja
+# and intro-*.json just as in the text producers: armed.  (Directory listings / os.environ there stay with the unordered sweep.)
+ARG_DIRS = ('mesonbuild/dependencies/', 'mesonbuild/compilers/', 'mesonbuild/linkers/', 'mesonbuild/interpreter/', 'mesonbuild/wrap/')
+ARG_FILES = ('mesonbuild/arglist.py', 'mesonbuild/programs.py', 'mesonbuild/utils/core.py', 'mesonbuild/environment.py')
+# (module, function) whose present order-sensitive use of a set ends in something that is not generated text, or whose consumers
+# live in callers this analysis does not follow: information, with the reason (not decided)
+ARG_INFO = {
+    ('mesonbuild/dependencies/detect.py', 'get_dep_identifier'): 'cache key of the dependency cache, not generated text',
+    ('mesonbuild/dependencies/boost.py', 'BoostDependency.detect_libraries'): 'candidate list, filtered and sorted by the caller',
+    ('mesonbuild/dependencies/cmake.py', 'CMakeDependency.__init__'): 'language list of the scratch CMake project (probing)',
+    ('mesonbuild/dependencies/factory.py', 'factory_methods.inner.wrapped'): 'method set; the factories only test membership in the returned list',
+    ('mesonbuild/dependencies/python.py', 'python_factory'): 'method set; the factory only tests membership in the returned list',
+    ('mesonbuild/interpreter/type_checking.py', '_language_validator'): 'text of an error message',
+    ('mesonbuild/environment.py', 'Environment.get_env_for_paths'): 'devenv / test environment path lists (DESIGN: information)',
+}
+_SET_PAT = None
+
+
+def _hash_sweep(ctx: RuleCtx, scope: T.List[str]) -> None:
+    """Hash order in the argument-producing modules.  Text pre-filter (which files / functions are worth parsing): the function
+    mentions a set constructor, a set annotation, a set display or a set comprehension; sets that arrive untyped are not seen here."""
+    import re
+    global _SET_PAT
+    if _SET_PAT is None:
+        _SET_PAT = re.compile(r'\b(?:frozen)?set\(|[Ss]et\[|\{[^{}:\n]*\sfor\s|(?:[=(,\[|&^-]|\bin|\breturn|\byield)\s*\{[^{}:\n]+\}|\{[^{}:\n]*,\s*$', re.M)
+    sc = _scanner(ctx)
+    nfun = nsites = 0
+    for rel in ctx.repo.py_files('mesonbuild'):
+        if rel in scope or not (rel.startswith(ARG_DIRS) or rel in ARG_FILES):
+            continue
+        src = ctx.repo.read(rel)
+        if not _SET_PAT.search(src):
+            continue
+        mod = ctx.repo.module(rel)
+        lines = src.splitlines()
+        for q, fn in mod.funcs().items():
+            if not _SET_PAT.search('\n'.join(lines[fn.lineno - 1:fn.end_lineno])):
+                continue
+            nfun += 1
+            for s in sc.scan_function(mod, fn, q):
+                if UNORDERED in s.ty.why:
+                    continue
+                nsites += 1
+                why = ARG_INFO.get((rel, s.func))
+                if s.verdict == 'violation' and why is None:
+                    ctx.violation(s.mod, s.func, s.node, _violation_text(s), s.value)
+                elif s.verdict in ('benign', 'sanitised'):
+                    ctx.ok(f'{_describe(s)} -> {s.verdict}{": " + s.reason if s.reason else ""}'[:300])
+                else:
+                    ctx.note(f'argument producers, not decided ({why or s.verdict}): {_describe(s)}: {s.reason}'[:320])
+    ctx.floor('argument-producing functions that mention a set', nfun, 20)
+    ctx.note(f'hash-order sweep of the argument producers: {nfun} functions, {nsites} uses of set-typed values')
+
+
 def r1(ctx: RuleCtx) -> None:
     with _NoGC():
         _positive_example(ctx)
@@ -206,6 +267,7 @@ def r1(ctx: RuleCtx) -> None:
         sc = _scanner(ctx)
         ctx.note(f'sites: {counts}; callee resolution in summaries: {sc.calls_resolved} resolved, {sc.calls_unresolved} unresolved')
         _unordered_sweep(ctx, scope)
+        _hash_sweep(ctx, scope)
         if ctx.thorough:
             _thorough_information(ctx, scope)
 
@@ -1333,10 +1395,55 @@ def r5(ctx: RuleCtx) -> None:
     _r5_core(ctx)
 
 
+EX_REGISTRY = '''
+import os
+class Resolver:
+    def load(self):
+        for i in os.listdir(self.root):
+            self.wraps[i] = Definition(i)
+        for w in self.wraps.values():
+            self.register(w)
+    def register(self, w, quiet=False):
+        for k in w.names:
+            if k not in self.providers:
+                self.providers[k] = w
+            elif not quiet:
+                log('duplicate', k)
+'''
+WRAP = 'mesonbuild/wrap/wrap.py'
+
+
+def _r6_core(ctx: RuleCtx) -> None:
+    import re
+    from . import c06_registry
+    example = getattr(ctx.repo, '_c06_example', False)
+    pat = re.compile(r'iterdir\(|os\.listdir|os\.scandir|glob\.i?glob|\.rglob\(|\.glob\(|os\.walk')
+    judged = 0
+    nmod = 0
+    rels = sorted(ctx.repo.overlay) if example else [r for r in ctx.repo.py_files('mesonbuild')
+                                                     if r in SCOPE or r.startswith(ARG_DIRS) or r in ARG_FILES or r in WIDE_FILES or r.startswith(WIDE_DIRS)]
+    for rel in rels:
+        src = ctx.repo.read(rel)
+        if not pat.search(src) or ' not in ' not in src and ' in ' not in src:     # text pre-filter: which files are worth parsing
+            continue
+        nmod += 1
+        judged += c06_registry.check_module(ctx, ctx.repo.module(rel))
+    ctx.note(f'{nmod} modules that list directories read; {judged} guarded registrations reached in listing order')
+    if not example and judged < 2:
+        raise Undecided(f'only {judged} guarded name registration(s) found that run in directory-listing order (the wrap provider tables '
+                        f'of {WRAP} are registered differently from what this rule reads)')
+
+
+def r6(ctx: RuleCtx) -> None:
+    _example_must_fire(ctx, _r6_core, {'mesonbuild/_c06_registry_example.py': EX_REGISTRY}, ['self.providers'])
+    _r6_core(ctx)
+
+
 RULES = [
     Rule('C06.R1', 'hash order must not reach output (K10)', r1),
     Rule('C06.R2', 'deps/orderdeps are written through sorted()', r2),
     Rule('C06.R3', 'unchanged outputs are not touched: temp + replace_if_different', r3),
     Rule('C06.R4', 'scratch file names are functions of a content digest', r4),
     Rule('C06.R5', 'sorted() needs a total order consistent with __eq__', r5),
+    Rule('C06.R6', 'a name registered twice in directory-listing order is an error, not first-come-first-served', r6),
 ]
